@@ -1167,8 +1167,9 @@ func (e *env) runRandom(restartMid bool) bool {
 	var forced map[int]forcedStep
 	restartAt := -1
 	if restartMid {
-		pre := []forcedStep{{0, Llim1}, {1, Lv}, {2, Llim}, {6, Lmax63}, {7, Lw}, {12, Llim1}, {13, Llim}}
-		post := []forcedStep{{1, Llim1}, {3, Llim1}, {4, Llim}, {2, Llim}, {0, Lv}, {8, Lmax63}, {7, Llim1}, {13, Llim1}, {14, Llim}, {12, Lw}}
+		// (cells 9, 10: the same content under two valid signatures is two reports - the ban must survive the restart)
+		pre := []forcedStep{{0, Llim1}, {1, Lv}, {2, Llim}, {6, Lmax63}, {7, Lw}, {12, Llim1}, {13, Llim}, {9, Lv}, {9, Lvp}, {10, Lvp}, {10, Lv}}
+		post := []forcedStep{{1, Llim1}, {3, Llim1}, {4, Llim}, {2, Llim}, {0, Lv}, {8, Lmax63}, {7, Llim1}, {13, Llim1}, {14, Llim}, {12, Lw}, {9, Lw}, {15, Lv}, {15, Lvp}}
 		steps = len(pre) + len(post) + 6 + e.rng.Intn(20)
 		restartAt = len(pre) + e.rng.Intn(steps-len(pre)-len(post))
 		forced = map[int]forcedStep{}
@@ -1189,6 +1190,31 @@ func (e *env) runRandom(restartMid bool) bool {
 				e.judge(c, snap.Reports[c.d.ID][c.idx], now, "after the restart")
 			}
 			hist += "RESTART;"
+		}
+		if s > 0 && e.rng.Intn(12) == 0 {
+			// the GCA submits a device's authorization once more (an exact duplicate changes nothing):
+			// every cell keeps its record
+			d := e.devs[e.rng.Intn(len(e.devs))]
+			run.Op("resubmit the identical authorization of device %d", d.ID)
+			if st, body, err := e.w.Authorize(d.Auth); err != nil || st != 200 {
+				if err != nil {
+					e.r.Inconc("resubmitted authorization: " + err.Error())
+					e.dead = true
+					return false
+				}
+				e.r.Violationf("identical-authorization-refused", map[string]interface{}{"history": hist}, "resubmitting the identical authorization of device %d was answered %d (%.80s)", d.ID, st, body)
+			}
+			snap := e.w.S.VerifSnapshot(true)
+			for _, c := range cells {
+				if snap.Reports[c.d.ID] == nil {
+					e.r.Violationf("cross-effect:duplicate-authorization", map[string]interface{}{"history": hist}, "after the identical authorization of device %d was resubmitted, device %d has no report window", d.ID, c.d.ID)
+					e.dead = true
+					return false
+				}
+				e.judge(c, snap.Reports[c.d.ID][c.idx], now, "after an identical authorization was resubmitted")
+			}
+			e.r.Count("random.duplicate_authorizations", 1)
+			hist += fmt.Sprintf("DUPAUTH %d;", d.ID)
 		}
 		c := cells[e.rng.Intn(len(cells))]
 		if e.rng.Intn(3) == 0 { // concentrate on few cells so that long histories per cell occur
